@@ -28,7 +28,7 @@ REAL = ["rpyc.core.protocol.Connection._check_attr/_access_attr and all attribut
         "(Service hooks, SlaveService.on_connect)", "netref/brine/channel/stream"]
 STUB = ["sockets/poll/time/locks (simulator)"]
 ASSUMPTIONS = ["the policy model is written from the statement and the DEFAULT_CONFIG documentation"]
-PROBES = ["c06:twin-used", "c06:deny", "c06:hook-decided", "c06:isolation-run", "c06:settings-dict-reused", "c06:two-name-slicing"]
+PROBES = ["c06:twin-used", "c06:deny", "c06:hook-decided", "c06:isolation-run", "c06:settings-dict-reused", "c06:two-name-slicing", "c06:server-made-without-config"]
 PREFIXES = ("exposed_", "x_", "", "éx_")
 _CASES = None
 CHUNK = 16
